@@ -94,7 +94,7 @@ impl Scenario for C14 {
 
     fn runs(&self, tier: Tier) -> u64 {
         match tier {
-            Tier::Quick => 6_000,
+            Tier::Quick => 40_000,
             Tier::Thorough => 1_500_000,
         }
     }
